@@ -474,14 +474,19 @@ pub fn build_real(cfg: &Config, side: Side, log: &Log) -> Result<HandshakeState,
     }
 }
 
-fn panic_msg(p: Box<dyn std::any::Any + Send>) -> String {
-    if let Some(s) = p.downcast_ref::<&str>() {
+pub fn panic_msg(p: Box<dyn std::any::Any + Send>) -> String {
+    let m = if let Some(s) = p.downcast_ref::<&str>() {
         (*s).to_string()
     } else if let Some(s) = p.downcast_ref::<String>() {
         s.clone()
     } else {
         "non-string panic".into()
-    }
+    };
+    // the file the panic came from (no line number: signatures must survive unrelated edits)
+    let file = crate::THREAD_PANIC_FILE.with(|c| c.borrow().clone());
+    let file = file.rsplit("/repo/").next().unwrap_or(&file).to_string();
+    let short: String = m.chars().take(90).collect();
+    format!("{file}: {short}")
 }
 
 const CANARY: u8 = 0xC9;
